@@ -1,12 +1,18 @@
 //! C16 — applying a generated ZBSDIFF patch to the old file yields the new file.
 //!
 //! Workload: ALL pairs of strings of length 0..=5 over {a,b} (3969 pairs) x the
-//! three builders x max_diff_block_size in {1,2,3,8,default}; random pairs
+//! four builder entry points (simple, chunked, optimized, `build()`) x
+//! max_diff_block_size in {1,2,3,8,default}; random pairs
 //! derived from a base file by insert/delete/move/repeat/flip/overwrite edits
 //! (plus empty old, empty new, new = old, prefixes, unrelated); the CDN fixture
 //! pairs of the repository. Every produced patch is applied by
-//! `apply_patch_memory`, `ZbsDiff::parse(..).apply(..)` and the streaming
-//! `ZbsdiffPatcher` with buffer sizes {1,2,7,64,4096,default}.
+//! `apply_patch_memory`, `ZbsDiff::parse(..).apply(..)`, the `CascFormat`
+//! parse+build entry points, the streaming `ZbsdiffPatcher` with buffer sizes
+//! {1,2,7,64,4096,default} and sizes at the largest block of the patch, and
+//! `ZbsdiffPatcher::apply_patch` fed through the `ZbsDiff` accessors. The
+//! accessors of the parsed patch are compared with an independent parse, and
+//! variants of each patch whose parts do not add up are applied: every applier
+//! must fail or return exactly the length the header states.
 //!
 //! Oracle: output == new and len(output) == header.output_size — or the builder
 //! returned Err (refusal: counted, not judged). The independent bspatch of
@@ -15,7 +21,8 @@
 //! one (the signature says which). A sample of (old, patch, md5(new)) is logged
 //! and replayed by a second, Python bspatch (`pyref/c16.py`).
 
-use cascette_formats::zbsdiff::{ZbsDiff, ZbsdiffBuilder, ZbsdiffHeader, ZbsdiffPatcher, apply_patch_memory};
+use cascette_formats::CascFormat;
+use cascette_formats::zbsdiff::{ControlBlock, ControlEntry, ZbsDiff, ZbsdiffBuilder, ZbsdiffHeader, ZbsdiffPatcher, apply_patch_memory, compress_zlib};
 use serde_json::{Value, json};
 use std::collections::BTreeMap;
 use std::io::{Cursor, Write};
@@ -29,19 +36,23 @@ enum Builder {
     Simple,
     Chunked,
     Optimized,
+    /// `ZbsdiffBuilder::build()` — the recommended entry point (documented as the suffix-array builder)
+    Build,
 }
 
 impl Builder {
     const ALL: [Builder; 3] = [Builder::Simple, Builder::Chunked, Builder::Optimized];
+    const WITH_BUILD: [Builder; 4] = [Builder::Simple, Builder::Chunked, Builder::Optimized, Builder::Build];
     fn name(self) -> &'static str {
         match self {
             Builder::Simple => "build_simple_patch",
             Builder::Chunked => "build_chunked_patch",
             Builder::Optimized => "build_optimized_patch",
+            Builder::Build => "build",
         }
     }
     fn from_name(s: &str) -> Option<Self> {
-        Self::ALL.into_iter().find(|b| b.name() == s)
+        Self::WITH_BUILD.into_iter().find(|b| b.name() == s)
     }
 }
 
@@ -213,6 +224,7 @@ fn run_case(
             Builder::Simple => zb.build_simple_patch(),
             Builder::Chunked => zb.build_chunked_patch(),
             Builder::Optimized => zb.build_optimized_patch(),
+            Builder::Build => zb.build(),
         }
     }));
     let build_ms = t_build.elapsed().as_millis() as u64;
@@ -248,6 +260,7 @@ fn run_case(
     // ---- independent view of the patch
     let parsed = bspatch::parse(&patch);
     let mut max_diff_block = 0i64;
+    let mut max_block = 0i64;
     let nontrivial = match &parsed {
         Ok(p) => {
             let n = p.control.len();
@@ -277,6 +290,7 @@ fn run_case(
                 loc.obs("patch.has_positive_seek", 1);
             }
             max_diff_block = p.control.iter().map(|c| c.0).max().unwrap_or(0);
+            max_block = p.control.iter().map(|c| c.0.max(c.1)).max().unwrap_or(0);
             n >= 2 || (!p.diff.is_empty() && !p.extra.is_empty())
         }
         Err(_) => false,
@@ -350,6 +364,46 @@ fn run_case(
             }),
         ));
     }
+
+    // buffer sizes at the largest diff/extra block of this patch (the patcher raises every size to >= 1024, so this
+    // only matters for blocks larger than that): block fits exactly / by one byte / misses by one byte
+    if max_block > 1024 {
+        let m = max_block as usize;
+        let mut more = vec![1025usize, m - 1, m, m + 1, 65536, 1 << 20];
+        more.sort_unstable();
+        more.dedup();
+        for bs in more {
+            loc.obs("stream.buffer_sized_around_largest_block", 1);
+            results.push((
+                "ZbsdiffPatcher",
+                Some(bs),
+                guarded(|| ZbsdiffPatcher::new(Cursor::new(old), out_size).with_buffer_size(bs).apply_patch_from_data(&patch).map_err(|e| e.to_string())),
+            ));
+        }
+    }
+
+    // the pre-parsed-components entry point of the streaming patcher, fed through the ZbsDiff accessors
+    results.push((
+        "ZbsdiffPatcher::apply_patch(components)",
+        None,
+        guarded(|| {
+            let zd = ZbsDiff::parse(&patch).map_err(|e| e.to_string())?;
+            let cb = zd.control_block().map_err(|e| e.to_string())?;
+            let d = zd.diff_data().map_err(|e| e.to_string())?;
+            let e = zd.extra_data().map_err(|e| e.to_string())?;
+            ZbsdiffPatcher::new(Cursor::new(old), zd.output_size()).apply_patch(&cb, &d, &e).map_err(|e| e.to_string())
+        }),
+    ));
+    // the CascFormat entry points: parse, serialise again, apply the re-serialised patch
+    results.push((
+        "CascFormat::parse+build",
+        None,
+        guarded(|| {
+            let zd = <ZbsDiff as CascFormat>::parse(&patch).map_err(|e| e.to_string())?;
+            let rebuilt = CascFormat::build(&zd).map_err(|e| e.to_string())?;
+            apply_patch_memory(old, &rebuilt).map_err(|e| e.to_string())
+        }),
+    ));
 
     let mut repo_all_new = true;
     for (applier, buf, r) in &results {
@@ -434,11 +488,398 @@ fn run_case(
         );
     }
 
+    if let Ok(p) = &parsed {
+        accessor_relations(ctx, loc, old, new, b, block, origin, gen_info, &patch, p);
+        // second sentence of the statement ("applying ANY patch gives the stated length or fails"): variants of this
+        // patch whose header / control block / data blocks no longer agree. Every 8th case of the exhaustive part, all
+        // remaining cases in quick, every third of them in thorough.
+        let sampled = match origin {
+            "exhaustive" => loc.evals % 8 == 0,
+            "replay" => true,
+            _ => ctx.quick() || fnv64(&patch) % 3 == 0,
+        };
+        if patch_right && sampled {
+            tampered_patches(ctx, loc, old, new, b, block, origin, gen_info, &patch, p);
+        }
+    }
+
     if nontrivial && ctx.want_sample() && origin != "exhaustive" {
         ctx.sample(json!({"kind":"judged case","origin":origin,"builder":bname,"max_diff_block_size":block,"old_len":old.len(),"new_len":new.len(),
             "patch_len":patch.len(),"control_entries":parsed.as_ref().map(|p| p.control.len()).unwrap_or(0),
             "diff_bytes":parsed.as_ref().map(|p| p.diff.len()).unwrap_or(0),"extra_bytes":parsed.as_ref().map(|p| p.extra.len()).unwrap_or(0),
             "ref_bspatch_yields_new":patch_right,"gen":gen_info}));
+    }
+}
+
+// ------------------------------------------------------------------ accessors of a parsed patch
+
+/// The accessors of `ZbsDiff` / `ControlBlock` / `ZbsdiffHeader` over a patch a builder produced, against the
+/// independent parse of the same bytes and against the header ("the length stated in the patch header").
+#[allow(clippy::too_many_arguments)]
+fn accessor_relations(ctx: &Ctx, loc: &mut Local, old: &[u8], new: &[u8], b: Builder, block: Option<usize>, origin: &str, gen_info: &Value, patch: &[u8], p: &bspatch::Patch) {
+    let bname = b.name();
+    type Views = (usize, Vec<(i64, i64, i64)>, i64, usize, bool, Vec<i64>, Vec<u8>, Vec<u8>, usize, i64);
+    let views = catch_unwind(AssertUnwindSafe(|| -> Result<Views, String> {
+        let zd = ZbsDiff::parse(patch).map_err(|e| e.to_string())?;
+        let cb = zd.control_block().map_err(|e| e.to_string())?;
+        Ok((
+            zd.output_size(),
+            cb.entries.iter().map(|e| (e.diff_size, e.extra_size, e.seek_offset)).collect(),
+            cb.total_output_size(),
+            cb.entry_count(),
+            cb.is_empty(),
+            cb.entries.iter().map(ControlEntry::output_bytes).collect(),
+            zd.diff_data().map_err(|e| e.to_string())?,
+            zd.extra_data().map_err(|e| e.to_string())?,
+            zd.header.minimum_patch_size(),
+            zd.header.compressed_data_size(),
+        ))
+    }));
+    let (output_size, entries, total, count, empty, out_bytes, diff, extra, min_size, comp_size) = match views {
+        Ok(Ok(v)) => v,
+        Ok(Err(e)) => {
+            ctx.violation(
+                &format!("C16|ZbsDiff::accessors|fail-on-own-patch|builder={bname}"),
+                "ZbsDiff::parse / control_block / diff_data / extra_data fails on a patch the builder just produced",
+                pair_detail(old, new, b, block, origin, json!({"error":e,"gen":gen_info})),
+            );
+            return;
+        }
+        Err(pn) => {
+            loc.obs("accessors.panicked", 1);
+            if ctx.want_sample() {
+                ctx.sample(json!({"kind":"accessor panicked (observation)","message":panic_text(&pn)}));
+            }
+            return;
+        }
+    };
+    loc.obs("accessors.patches_checked", 1);
+    // block sizes as written in the header bytes (independent read)
+    let (c_sz, d_sz) = (bspatch::offtin(&patch[8..16]), bspatch::offtin(&patch[16..24]));
+    let mut bad: Vec<(&'static str, Value)> = Vec::new();
+    if output_size as i64 != p.output_size {
+        bad.push(("ZbsDiff::output_size()!=header-bytes", json!({"output_size()":output_size,"header":p.output_size})));
+    }
+    if entries != p.control {
+        let i = entries.iter().zip(&p.control).position(|(a, b)| a != b).unwrap_or(entries.len().min(p.control.len()));
+        bad.push(("ZbsDiff::control_block()!=independent-parse", json!({"first_differing_entry":i,"repo":entries.get(i),"independent":p.control.get(i),"repo_len":entries.len(),"independent_len":p.control.len()})));
+    }
+    if total != p.output_size {
+        bad.push(("ControlBlock::total_output_size()!=header.output_size", json!({"total_output_size()":total,"header_output_size":p.output_size})));
+    }
+    if count != p.control.len() || empty != p.control.is_empty() {
+        bad.push(("ControlBlock::entry_count()/is_empty()!=independent-parse", json!({"entry_count()":count,"is_empty()":empty,"independent_len":p.control.len()})));
+    }
+    if out_bytes.iter().zip(&p.control).any(|(o, c)| *o != c.0 + c.1) {
+        bad.push(("ControlEntry::output_bytes()!=diff_size+extra_size", json!({})));
+    }
+    if diff != p.diff {
+        bad.push(("ZbsDiff::diff_data()!=independent-parse", json!({"repo_len":diff.len(),"independent_len":p.diff.len()})));
+    }
+    if extra != p.extra {
+        bad.push(("ZbsDiff::extra_data()!=independent-parse", json!({"repo_len":extra.len(),"independent_len":p.extra.len()})));
+    }
+    if min_size as i64 != 32 + c_sz + d_sz || min_size > patch.len() {
+        bad.push(("ZbsdiffHeader::minimum_patch_size()!=32+control+diff-or-beyond-patch", json!({"minimum_patch_size()":min_size,"control_size":c_sz,"diff_size":d_sz,"patch_len":patch.len()})));
+    }
+    if comp_size != c_sz + d_sz {
+        bad.push(("ZbsdiffHeader::compressed_data_size()!=control+diff", json!({"compressed_data_size()":comp_size,"control_size":c_sz,"diff_size":d_sz})));
+    }
+    for (rel, info) in bad {
+        ctx.violation(
+            &format!("C16|{rel}|builder={bname}"),
+            "an accessor of the parsed patch disagrees with the patch bytes (independent parse) or with the header",
+            pair_detail(old, new, b, block, origin, json!({"relation":rel,"values":info,"gen":gen_info})),
+        );
+    }
+}
+
+// ------------------------------------------------------------------ patches that do not add up
+
+/// Variants of a right patch in which header, control block and data blocks no longer agree (assembled with the
+/// library's own `ControlBlock::new/add_entry/to_compressed`, `ZbsdiffHeader::new`, `ZbsDiff::build`, `compress_zlib`).
+/// They are not "patches this library generated", so only the second sentence applies: every applier either fails or
+/// returns exactly `header.output_size` bytes.
+#[allow(clippy::too_many_arguments)]
+fn tampered_patches(ctx: &Ctx, loc: &mut Local, old: &[u8], new: &[u8], b: Builder, block: Option<usize>, origin: &str, gen_info: &Value, patch: &[u8], p: &bspatch::Patch) {
+    let bname = b.name();
+    let mut rng = ctx.rng(mix64(0x7a3b_16, fnv64(patch)));
+    let out = p.output_size;
+    let Ok(zd) = ZbsDiff::parse(patch) else { return };
+    let assemble = |control: Option<&[(i64, i64, i64)]>, diff: Option<&[u8]>, extra: Option<&[u8]>, out_size: i64, use_default: bool| -> Result<Vec<u8>, String> {
+        let control_data = match control {
+            Some(entries) if entries.len() % 3 == 2 => {
+                // third constructor: all entries at once
+                let cb = ControlBlock::with_entries(entries.iter().map(|(d, e, s)| ControlEntry::new(*d, *e, *s)).collect()).map_err(|e| e.to_string())?;
+                cb.to_compressed().map_err(|e| e.to_string())?
+            }
+            Some(entries) => {
+                let mut cb = if use_default { ControlBlock::default() } else { ControlBlock::new() };
+                for (d, e, s) in entries {
+                    cb.add_entry(ControlEntry::new(*d, *e, *s)).map_err(|e| e.to_string())?;
+                }
+                cb.to_compressed().map_err(|e| e.to_string())?
+            }
+            None => zd.control_data.clone(),
+        };
+        let diff_data = match diff {
+            Some(d) => compress_zlib(d).map_err(|e| e.to_string())?,
+            None => zd.diff_data.clone(),
+        };
+        let extra_data = match extra {
+            Some(e) => compress_zlib(e).map_err(|e| e.to_string())?,
+            None => zd.extra_data.clone(),
+        };
+        let header = ZbsdiffHeader::new(control_data.len() as i64, diff_data.len() as i64, out_size).map_err(|e| e.to_string())?;
+        ZbsDiff { header, control_data, diff_data, extra_data }.build().map_err(|e| e.to_string())
+    };
+    let delta = |rng: &mut Rng| -> i64 { *rng.pick(&[1i64, 1, 2, 5, 17, 300]) };
+
+    // (kind, tampered patch, output size handed to ZbsdiffPatcher::new)
+    let mut variants: Vec<(&'static str, Result<Vec<u8>, String>, Option<i64>)> = Vec::new();
+    // K1: header says another output size
+    {
+        let d = delta(&mut rng);
+        let o2 = match rng.below(4) {
+            0 => out + d,
+            1 => (out - d).max(0),
+            2 => 0,
+            _ => out * 2 + 1,
+        };
+        if o2 != out {
+            variants.push(("header.output_size-altered", assemble(None, None, None, o2, false), None));
+        }
+    }
+    // K2: one control entry resized, header unchanged (cannot add up) or header adjusted to the new total
+    if !p.control.is_empty() {
+        let j = rng.usize_below(p.control.len());
+        let field_diff = rng.bool();
+        let d = delta(&mut rng);
+        let grow = rng.bool();
+        let mut entries = p.control.clone();
+        let cur = if field_diff { entries[j].0 } else { entries[j].1 };
+        let nv = if grow { cur + d } else { (cur - d).max(0) };
+        if nv != cur {
+            if field_diff {
+                entries[j].0 = nv;
+            } else {
+                entries[j].1 = nv;
+            }
+            variants.push(("control-entry-resized,header-unchanged", assemble(Some(&entries), None, None, out, j % 2 == 0), None));
+            let total: i64 = entries.iter().map(|e| e.0 + e.1).sum();
+            variants.push(("control-entry-resized,header-adjusted", assemble(Some(&entries), None, None, total, j % 2 == 1), None));
+        }
+        // K2b: the last entry produces less and the header says so: a patch that adds up again (shorter output)
+        let mut entries = p.control.clone();
+        if let Some(last) = entries.last_mut() {
+            let cut = d.min(last.1);
+            if cut > 0 {
+                last.1 -= cut;
+                variants.push(("last-extra-shortened,header-adjusted", assemble(Some(&entries), None, None, out - cut, false), None));
+            }
+        }
+    }
+    // K3: a data block is shorter than the control block needs
+    if !p.diff.is_empty() {
+        let k = (delta(&mut rng) as usize).min(p.diff.len());
+        variants.push(("diff-block-truncated", assemble(None, Some(&p.diff[..p.diff.len() - k]), None, out, false), None));
+    }
+    if !p.extra.is_empty() {
+        let k = (delta(&mut rng) as usize).min(p.extra.len());
+        variants.push(("extra-block-truncated", assemble(None, None, Some(&p.extra[..p.extra.len() - k]), out, false), None));
+    }
+    // K4: the right patch, but the streaming patcher is constructed with another output size than the header states
+    {
+        let d = delta(&mut rng);
+        let o2 = if rng.bool() { out + d } else { (out - d).max(0) };
+        if o2 != out {
+            variants.push(("patcher-constructed-with-other-output-size", Ok(patch.to_vec()), Some(o2)));
+        }
+    }
+
+    // K5/K6: control block / header written byte by byte by the harness (own offtout + zlib), so that values the
+    // library's constructors refuse can be put into a patch: negative and oversized entries, an incomplete entry, no
+    // entry at all, saturating seeks, negative / oversized / inconsistent header fields, a cut file. Every fourth patch.
+    if fnv64(patch) % 4 == 0 {
+        let offtout = |v: i64| -> [u8; 8] {
+            let mut b = v.unsigned_abs().to_le_bytes();
+            if v < 0 {
+                b[7] |= 0x80;
+            }
+            b
+        };
+        let zlib = |d: &[u8]| -> Vec<u8> {
+            let mut e = flate2::write::ZlibEncoder::new(Vec::new(), flate2::Compression::default());
+            let _ = e.write_all(d);
+            e.finish().unwrap_or_default()
+        };
+        let raw = |control_raw: &[u8], out_size: i64| -> Vec<u8> {
+            let c = zlib(control_raw);
+            let mut t = b"ZBSDIFF1".to_vec();
+            t.extend_from_slice(&(c.len() as i64).to_le_bytes());
+            t.extend_from_slice(&(zd.diff_data.len() as i64).to_le_bytes());
+            t.extend_from_slice(&out_size.to_le_bytes());
+            t.extend_from_slice(&c);
+            t.extend_from_slice(&zd.diff_data);
+            t.extend_from_slice(&zd.extra_data);
+            t
+        };
+        let control_bytes = |entries: &[(i64, i64, i64)]| -> Vec<u8> {
+            let mut v = Vec::with_capacity(entries.len() * 24);
+            for (d, e, sk) in entries {
+                v.extend_from_slice(&offtout(*d));
+                v.extend_from_slice(&offtout(*e));
+                v.extend_from_slice(&offtout(*sk));
+            }
+            v
+        };
+        let j = if p.control.is_empty() { 0 } else { rng.usize_below(p.control.len()) };
+        match rng.below(5) {
+            0 if !p.control.is_empty() => {
+                let mut e = p.control.clone();
+                if rng.bool() {
+                    e[j].0 = -(e[j].0 + 1);
+                } else {
+                    e[j].1 = -(e[j].1 + 1);
+                }
+                variants.push(("raw-control:negative-size", Ok(raw(&control_bytes(&e), out)), None));
+            }
+            1 if !p.control.is_empty() => {
+                let mut e = p.control.clone();
+                if rng.bool() {
+                    e[j].0 = 10_000_001;
+                } else {
+                    e[j].1 = 10_000_001;
+                }
+                variants.push(("raw-control:oversized-entry", Ok(raw(&control_bytes(&e), out)), None));
+            }
+            2 => {
+                let mut c = control_bytes(&p.control);
+                let k = rng.urange(1, 23);
+                c.extend(std::iter::repeat(0u8).take(k));
+                variants.push(("raw-control:incomplete-entry", Ok(raw(&c, out)), None));
+            }
+            3 => {
+                variants.push(("raw-control:no-entry", Ok(raw(&[], if rng.bool() { 0 } else { out })), None));
+            }
+            _ if !p.control.is_empty() => {
+                let mut e = p.control.clone();
+                e[j].2 = *rng.pick(&[i64::MAX, -i64::MAX, 1 << 40, -(1 << 40)]);
+                variants.push(("raw-control:saturating-seek", Ok(raw(&control_bytes(&e), out)), None));
+            }
+            _ => {}
+        }
+        let mut t = patch.to_vec();
+        let (c_sz, d_sz) = (zd.header.control_size, zd.header.diff_size);
+        let put = |t: &mut Vec<u8>, at: usize, v: i64| t[at..at + 8].copy_from_slice(&v.to_le_bytes());
+        let kind = match rng.below(9) {
+            0 => {
+                put(&mut t, 8, -1);
+                "raw-header:negative-control_size"
+            }
+            1 => {
+                put(&mut t, 16, -5);
+                "raw-header:negative-diff_size"
+            }
+            2 => {
+                put(&mut t, 24, -1 - rng.range(0, 1000) as i64);
+                "raw-header:negative-output_size"
+            }
+            3 => {
+                if rng.bool() {
+                    put(&mut t, if rng.bool() { 8 } else { 16 }, 1_000_000_001);
+                } else {
+                    // each block size passes on its own, their sum does not
+                    put(&mut t, 8, 600_000_000);
+                    put(&mut t, 16, 600_000_000);
+                }
+                "raw-header:oversized-block-size"
+            }
+            4 => {
+                put(&mut t, 24, 1_000_000_001);
+                "raw-header:oversized-output_size"
+            }
+            5 => {
+                let i = rng.usize_below(8);
+                t[i] ^= 1 << rng.below(8);
+                "raw-header:signature-bit-flipped"
+            }
+            6 => {
+                // block boundaries shifted by a few bytes
+                let d = *rng.pick(&[-3i64, -1, 1, 2, 7]);
+                put(&mut t, 8, (c_sz + d).max(0));
+                "raw-header:control_size-shifted"
+            }
+            7 => {
+                put(&mut t, 16, (patch.len() as i64 - 32 - c_sz).max(0) + rng.range(1, 40) as i64);
+                let _ = d_sz;
+                "raw-header:diff_size-beyond-patch"
+            }
+            _ => {
+                let cut = if rng.bool() { rng.urange(0, 31) } else { rng.urange(32.min(patch.len()), patch.len().saturating_sub(1).max(32.min(patch.len()))) };
+                t.truncate(cut.min(patch.len()));
+                "raw-header:file-cut"
+            }
+        };
+        variants.push((kind, Ok(t), None));
+    }
+
+    for (kind, made, patcher_size) in variants {
+        let t = match made {
+            Ok(t) => t,
+            Err(_) => {
+                loc.obs(&format!("tampered.not_assembled.{kind}"), 1);
+                continue;
+            }
+        };
+        loc.obs(&format!("tampered.patches.{kind}"), 1);
+        // the length the header states (the format's header fields are plain little-endian i64); a file too short to
+        // have a header states nothing: any Ok is then a wrong-length result
+        let stated = if t.len() >= 32 { i64::from_le_bytes([t[24], t[25], t[26], t[27], t[28], t[29], t[30], t[31]]) } else { -1 };
+        let psize = patcher_size.unwrap_or(stated).max(0) as usize;
+        // the header-only reader must report what the header bytes say, or fail
+        match catch_unwind(AssertUnwindSafe(|| ZbsdiffHeader::parse_from_patch(&t).map(|h| h.output_size))) {
+            Ok(Ok(n)) if n == stated && t.len() >= 32 => loc.obs("tampered.parse_from_patch.ok_states_header_bytes", 1),
+            Ok(Ok(n)) => ctx.violation(
+                &format!("C16|ZbsdiffHeader::parse_from_patch|output_size!=header-bytes|tampered:{kind}"),
+                "parse_from_patch returned Ok with an output size that is not what bytes 24..32 of the patch say (or for a file without a complete header)",
+                pair_detail(old, new, b, block, origin, json!({"tamper":kind,"returned":n,"header_bytes_say":stated,"patch_len":t.len(),"gen":gen_info})),
+            ),
+            Ok(Err(_)) => loc.obs("tampered.parse_from_patch.err", 1),
+            Err(_) => loc.obs("tampered.outcome.panic(observation)", 1),
+        }
+        let mut results: Vec<(&'static str, ApplyResult)> = Vec::new();
+        if patcher_size.is_none() {
+            results.push(("apply_patch_memory", guarded(|| apply_patch_memory(old, &t).map_err(|e| e.to_string()))));
+            results.push(("ZbsDiff::apply", guarded(|| ZbsDiff::parse(&t).map_err(|e| e.to_string())?.apply(old).map_err(|e| e.to_string()))));
+        }
+        results.push(("ZbsdiffPatcher", guarded(|| ZbsdiffPatcher::new(Cursor::new(old), psize).apply_patch_from_data(&t).map_err(|e| e.to_string()))));
+        results.push(("ZbsdiffPatcher", guarded(|| ZbsdiffPatcher::new(Cursor::new(old), psize).with_buffer_size(1).apply_patch_from_data(&t).map_err(|e| e.to_string()))));
+        results.push((
+            "ZbsdiffPatcher::apply_patch(components)",
+            guarded(|| {
+                let z = ZbsDiff::parse(&t).map_err(|e| e.to_string())?;
+                let cb = z.control_block().map_err(|e| e.to_string())?;
+                let d = z.diff_data().map_err(|e| e.to_string())?;
+                let e = z.extra_data().map_err(|e| e.to_string())?;
+                ZbsdiffPatcher::new(Cursor::new(old), if patcher_size.is_some() { psize } else { z.output_size() }).apply_patch(&cb, &d, &e).map_err(|e| e.to_string())
+            }),
+        ));
+        for (applier, r) in &results {
+            match r {
+                Ok(o) if o.len() as i64 == stated => loc.obs("tampered.outcome.ok_with_stated_length", 1),
+                Ok(o) => {
+                    loc.obs("tampered.outcome.ok_with_other_length", 1);
+                    ctx.violation(
+                        &format!("C16|{applier}|len(output)!=header.output_size|tampered:{kind}"),
+                        "a patcher returned Ok with a length different from the output size stated in the patch header (the patch is a variant of a generated one whose parts do not add up)",
+                        pair_detail(old, new, b, block, origin, json!({"tamper":kind,"out_len":o.len(),"header_output_size":stated,"patcher_constructed_with":patcher_size,"tampered_patch_head":hex_short(&t, 64),"derived_from_builder":bname,"gen":gen_info})),
+                    );
+                }
+                Err(e) if e.starts_with("PANIC") => loc.obs("tampered.outcome.panic(observation)", 1),
+                Err(_) => loc.obs("tampered.outcome.err", 1),
+            }
+        }
     }
 }
 
@@ -653,7 +1094,7 @@ fn count_ops(loc: &mut Local, info: &Value) {
 
 fn main() {
     let ctx = Ctx::init("C16", "exploration");
-    ctx.set_rule("a case is (old, new, builder, max_diff_block_size); every patch a builder returns is applied by apply_patch_memory, ZbsDiff::apply and the streaming ZbsdiffPatcher (6 buffer sizes) and by an independent bspatch; non-trivial = the patch has >= 2 control entries or both diff and extra bytes; distinct by hash of (old, new, builder, block size)");
+    ctx.set_rule("a case is (old, new, builder entry point, max_diff_block_size); every patch a builder returns is applied by apply_patch_memory, ZbsDiff::apply, CascFormat parse+build, the streaming ZbsdiffPatcher (6 buffer sizes + sizes at the largest block, short-read readers, pre-parsed components) and by an independent bspatch; variants of the patch that do not add up must fail or yield the stated length; non-trivial = the patch has >= 2 control entries or both diff and extra bytes; distinct by hash of (old, new, builder, block size)");
     ctx.assume("vh::refimpl::bspatch implements classic bspatch semantics (relative seek, wrapping add, zlib streams, offtin sign-magnitude) correctly; it is re-checked by the Python bspatch in pyref/c16.py over a sample of the same patch bytes");
     ctx.assume("flate2 (zlib) inflates correctly");
 
@@ -709,7 +1150,7 @@ fn main() {
                 let mut loc = Local::default();
                 for k in (0..npairs).filter(|k| k % threads == t) {
                     let (old, new) = (&strings[k / strings.len()], &strings[k % strings.len()]);
-                    for b in Builder::ALL {
+                    for b in Builder::WITH_BUILD {
                         for block in BLOCK_SIZES {
                             run_case(ctx, &mut loc, pylog, old, new, b, block, "exhaustive", &json!({}));
                         }
@@ -723,7 +1164,7 @@ fn main() {
     let t_exh = ctx.elapsed_s();
     ctx.set_extra(
         "exhaustive_subspace",
-        json!({"alphabet":"ab","max_len":5,"strings":strings.len(),"pairs":npairs,"builders":3,"max_diff_block_sizes":["1","2","3","8","default"],"complete":true}),
+        json!({"alphabet":"ab","max_len":5,"strings":strings.len(),"pairs":npairs,"builders":4,"max_diff_block_sizes":["1","2","3","8","default"],"complete":true}),
     );
 
     // ---- 2. random edited pairs
@@ -746,7 +1187,8 @@ fn main() {
                     let (old, new, info) = random_pair_for(ctx, 16, idx, max);
                     count_ops(&mut loc, &info);
                     loc.obs("random.pairs", 1);
-                    for b in Builder::ALL {
+                    let builders: &[Builder] = if idx % 3 == 0 { &Builder::WITH_BUILD } else { &Builder::ALL };
+                    for &b in builders {
                         let block = match pick.below(8) {
                             0 => Some(1),
                             1 => Some(2),
@@ -780,7 +1222,8 @@ fn main() {
                     let (old, new, info) = random_pair_for(ctx, 17, idx, large_max);
                     count_ops(&mut loc, &info);
                     loc.obs("large.pairs", 1);
-                    for b in Builder::ALL {
+                    let builders: &[Builder] = if idx % 4 == 0 { &Builder::WITH_BUILD } else { &Builder::ALL };
+                    for &b in builders {
                         run_case(ctx, &mut loc, pylog, &old, &new, b, None, "large", &info);
                     }
                 }
@@ -828,6 +1271,13 @@ fn main() {
         ("build.ok.build_chunked_patch", "chunked builder never produced a patch"),
         ("build.ok.build_optimized_patch", "suffix-array builder never produced a patch"),
         ("build.ok.build_simple_patch", "simple builder never produced a patch"),
+        ("build.ok.build", "ZbsdiffBuilder::build() never produced a patch"),
+        ("apply.ZbsdiffPatcher::apply_patch(components)", "the pre-parsed-components entry point of the streaming patcher was never used"),
+        ("apply.CascFormat::parse+build", "the CascFormat entry points were never used"),
+        ("accessors.patches_checked", "no ZbsDiff / ControlBlock accessor was compared with the independent parse"),
+        ("stream.buffer_sized_around_largest_block", "no streaming application with a buffer sized at the largest block"),
+        ("tampered.outcome.err", "no patch whose parts do not add up was refused"),
+        ("tampered.outcome.ok_with_stated_length", "no hand-assembled consistent patch variant was applied"),
         ("patch.shape.diff_and_extra", "no patch with both diff and extra bytes was produced"),
         ("patch.has_nonzero_diff_bytes", "no patch with a non-zero diff byte was produced"),
         ("patch.has_negative_seek", "no patch with a negative seek was produced"),
@@ -928,7 +1378,7 @@ fn fixtures(ctx: &Ctx, pylog: &Mutex<PyLog>) {
             Err(_) => loc.obs("fixtures.cdn_patch.ref_bspatch_error", 1),
         }
         // (b) the fixture pair as input of the library's own builders: fully judged
-        for b in Builder::ALL {
+        for b in Builder::WITH_BUILD {
             for block in [Some(8), None] {
                 run_case(ctx, &mut loc, pylog, &old, &new, b, block, "fixture_pair", &json!({"fixture":stem}));
             }
